@@ -212,6 +212,12 @@ def run(ctx):
         "tampered proofs: the verifier's node table is rebuilt by hashing the blobs (interpretation note 'Tampered proof'); "
         "every proof byte is xor-ed with 1 (quick) or 2 (thorough) masks and every node substituted by every other node of the trie",
         "SecureTrie.Prove and VerifyProof are given the hashed key, as their callers do",
+        "every proof is also produced into a sink that retains the slices it is handed (as core/state.proofList does) and verified "
+        "after Prove returned and after a second Prove on the same trie; StateDB.GetProof / GetStorageProof are driven on a small "
+        "committed state (5 accounts, 4 slots, present and absent keys) and their proofs verified the way a light client does",
+        "values returned by Get are retained as returned and compared one action later (they are shared with the trie's nodes and "
+        "must not change under it); iterator values are not judged this way: NodeIterator documents that LeafBlob must not be "
+        "retained across Next",
         "per-step roots are recorded as their first 80 bits (published vectors and DeriveSha carry all 256)",
     ]
     behs = generate(ctx)
